@@ -36,6 +36,7 @@ class World:
         self.post_checked = False
         self.n_writes_at_notice = None
         self.coincidence = params.get("coincidence", True)
+        self.line_faults_left = 1
         # bring-up (fault free)
         boot = sw.loop.create_task(self._boot())
         sw.loop.settle()
@@ -171,10 +172,18 @@ class World:
             out.append((("dlv", "h2n"), 0))
         elif sw.n2h and not sw.lost:
             out.append((("dlv", "n2h"), 0))
+        elif busy and sw.ash.timer_armed() and not self._mute_ash and (
+                sw.loop.next_deadline() is None or sw.loop.next_deadline() - sw.loop.time() > 3.2):
+            out.append((("T-ncp",), 0))     # the NCP's retransmission timer (<= 3.2 s) fires before longer host timers
         elif busy and sw.loop.next_deadline() is not None:
             out.append((("T",), 0))
         else:
             out.append((("end",), 0))
+        if self.p.get("line_faults") and self.fail is None and self.line_faults_left > 0 and not sw.lost:
+            for line, q in (("h2n", sw.h2n), ("n2h", sw.n2h)):
+                if q and not (line == "h2n" and self._mute_ash):
+                    for f in ("drop", "corrupt", "dup"):
+                        out.append((("dlv", line, f), 1))
         if self.fail is None and self.steps < 200:
             for k in KINDS:
                 out.append((("fail", k), 1))
@@ -193,15 +202,24 @@ class World:
             self._final()
             return
         if k == "dlv":
+            fault = label[2] if len(label) > 2 else "ok"
+            if fault != "ok":
+                self.line_faults_left -= 1
+                q = sw.h2n if label[1] == "h2n" else sw.n2h
+                from mc.checks.c09 import frame_kind
+
+                self.faulted_kind = frame_kind(q[0])
             if label[1] == "h2n":
                 if self._mute_ash:
                     sw.h2n.pop(0)
                 else:
-                    sw.deliver_h2n()
+                    sw.deliver_h2n(fault)
             else:
-                sw.deliver_n2h()
+                sw.deliver_n2h(fault)
         elif k == "T":
             sw.host_timers()
+        elif k == "T-ncp":
+            sw.ncp_timeout()
         elif k == "fail":
             self._inject(label[1], len(label) > 2)
         self._after_step()
@@ -240,9 +258,11 @@ class World:
         if kind is None:
             if n_requests:
                 self.viol.append("controller-reset request without any failure")
+            # a lost / damaged / duplicated RST or RSTACK may make the reset time out (as in C09); any other line fault is absorbed
+            reset_frame_hit = getattr(self, "faulted_kind", None) in ("RST", "RSTACK")
             for c in self.calls:
-                if c["outcome"] != "ok" and self.p["workload"] != "reset-mute":
-                    self.viol.append(f"fault-free run: {c['name']} ended with {c['outcome']}")
+                if c["outcome"] != "ok" and self.p["workload"] != "reset-mute" and not reset_frame_hit:
+                    self.viol.append(f"{'line fault on a ' + self.faulted_kind + ' frame' if hasattr(self, 'faulted_kind') else 'fault-free run'}: {c['name']} ended with {c['outcome']}")
             return
         if kind == "close":
             if n_requests:
@@ -250,7 +270,8 @@ class World:
             return
         # (1) the application is told.  While a reset is in progress EZSP is stopped and nothing is sent, so a silent NCP
         # is reported to the caller of the reset (its call raises) rather than through the callback.
-        reset_raised = any(c["name"] == "reset" and (c["outcome"] or "").startswith("raised") and (c["t_done"] >= t_fail - EPS or self.p["workload"] == "reset-mute") for c in self.calls)
+        # (a reset that failed earlier leaves EZSP stopped: nothing is sent any more, the failure was reported by that call)
+        reset_raised = any(c["name"] == "reset" and (c["outcome"] or "").startswith("raised") for c in self.calls)
         if t_notice is None and kind == "silent" and reset_raised:
             pass
         elif t_notice is None:
@@ -333,15 +354,22 @@ def param_list(tier):
 def main(tier: str) -> int:
     rep = report.Report("C10", tier, "fault_enumeration")
     st = explore.dbdfs(("mc.checks.c10", "build"), param_list(tier), 1, budget_s=(80 if tier == "quick" else 1500), split_depth=1)
+    # one line fault (loss / corruption / duplication of any wire frame) followed by one failure
+    p2 = [dict(p, line_faults=True) for p in param_list(tier) if p["version"] in ((8,) if tier == "quick" else (4, 8, 14)) and "path" not in p]
+    st2 = explore.dbdfs(("mc.checks.c10", "build"), p2, 2, budget_s=(60 if tier == "quick" else 1500), split_depth=1)
+    for v, params, choices, labels in st2.violations:
+        rep.add_violation(vkey(v, params), v, {"world": "c10", "params": params, "choices": choices})
     for v, params, choices, labels in st.violations:
         rep.add_violation(vkey(v, params), v, {"world": "c10", "params": params, "choices": choices})
     if st.executions < 300 or len(st.signatures) < 15:
         raise explore.InternalError(f"C10 vacuous: {st.executions} executions, {len(st.signatures)} signatures")
     rep.coverage = {
-        "evaluations": st.executions,
-        "distinct_nontrivial": len(st.signatures),
-        "capped": st.capped,
-        "exhaustive": not st.capped,
+        "evaluations": st.executions + st2.executions,
+        "distinct_nontrivial": len(st.signatures) + len(st2.signatures),
+        "single_failure_executions": st.executions,
+        "line_fault_plus_failure_executions": st2.executions,
+        "capped": st.capped or st2.capped,
+        "exhaustive": not (st.capped or st2.capped),
         "max_depth": st.max_depth,
         "failure_kinds": KINDS,
         "workloads": [p["workload"] for p in param_list(tier)],
